@@ -463,6 +463,11 @@ class Gen:
             # Verus accepts closure-taking iterator adapters but leaves their result unspecified: a body that still holds one
             # after the rewrite rules cannot be decided - neither a pass nor a failure would mean anything
             code_only = "\n".join(l for l in body2.split("\n") if not re.match(r"\s*(//|proof \{|assert|let ghost|invariant|requires|ensures)", l))
+            for pat in spec.get("forbid", ()):
+                # calls this function is known to make that Verus accepts without a specification once the rewrite rule misses them
+                fm = re.search(pat, code_only)
+                if fm:
+                    raise GenError(f"{key}: unsupported construct `{fm.group(0)}`: accepted by the verifier without a specification, its result would be unconstrained")
             m = UNSPECIFIED_ADAPTER.search(code_only)
             if m:
                 raise GenError(f"{key}: unsupported construct `{m.group(0)}...)`: an iterator adapter over a closure, whose result the verifier leaves unspecified")
